@@ -291,16 +291,17 @@ func (b *builder) build(c Config) (logs.Loggers, []*leaf, error) {
 
 // ---- messages --------------------------------------------------------------------------------------------------------------
 
-var msgRe = regexp.MustCompile(`p(\d+):(\d+):(\d+):([a-z]*):([0-9a-f]{8})`)
+var msgRe = regexp.MustCompile(`p(\d+):(\d+):(\d+):([a-z%]*):([0-9a-f]{8})`)
 var startRe = regexp.MustCompile(`p\d+:\d+:\d+:`)
 var hintRe = regexp.MustCompile(`p\d+:\d+:`)
 
-const alphabet = "abcdefghijklmnopqrstuvwxyz"
+// (a percent sign now and then: a message is data, not a format string)
+const alphabet = "abcdefghijklmnopqrstuvwxyz%"
 
 func message(p, seq, n int) string {
 	var sb strings.Builder
 	for i := 0; i < n; i++ {
-		sb.WriteByte(alphabet[(p*7+seq*13+i)%26])
+		sb.WriteByte(alphabet[(p*7+seq*13+i*i)%27])
 	}
 	body := fmt.Sprintf("p%d:%d:%d:%s", p, seq, n, sb.String())
 	return fmt.Sprintf("%s:%08x", body, crc32.ChecksumIEEE([]byte(body)))
